@@ -15,6 +15,6 @@ structure DMon (s : Nat) (st : Stream) (cl : Client) : Prop where
   empty_read : (cl.pc = .flushAfterRead s 1 ∨ cl.pc = .flushRmapNotify s 1) → cl.flushLen = 0 → (cv st.sinkCh).i1 = (cv st.sinkCh).total
 
 def DMonP (s : Nat) (st : Stream) (cl : Client) : Prop :=
-  st.cam.emptyEvery = 0 → cl.misused = false → DMon s st cl
+  Here st → cl.misused = false → DMon s st cl
 
 end AcqVerif.Runtime
